@@ -18,6 +18,14 @@ def main(argv=None):
     ck = Check("C08", argv, level="proof")
     res = taskworld.run(ck, FUNCS)
     world.report(ck, res, select=lambda n: any(p in n for p in PATS))
+    # every application header line reaches the head as often as it was given -- no field is dropped, merged or duplicated (bounded: a fixed table)
+    reph = ck.native("heads", {}, timeout=300)
+    ck.bounded.append({"label": "bounded", "what": "the head written by the real Task.write/build_response_header carries each application header line exactly as often as given "
+                       "(repeated Set-Cookie, fields differing only in letter case, the application's own Date/Server), plus only the server's own fields",
+                       "bound": "7 header lists x HTTP/1.0, 1.1 (replay/C08_replay.py)", "evaluations": reph.get("total", 0), "failures": reph.get("failures", reph)})
+    for f in (reph.get("failures") or [])[:2]:
+        ck.fail("task.Task.build_response_header/bounded:heads", "case:" + repr(f["headers"])[:100], "bounded stand-in: header lines lost or added: %s" % (f,),
+                replay={"case": f, "label": "bounded"}, reproduced=True)
     ck.trusted.extend([
         "element-fact tracking for lists (vlib): a fact on all elements is installed only by a loop proved to establish it, and re-proved at every append/extend/store",
         "builtin string model: case maps (capitalize/lower/upper) neither create nor remove CR/LF and keep the length; every character of sep.join(xs) belongs to sep or to some element; str(int) is a decimal numeral",
